@@ -13,6 +13,9 @@ what is stored where, under which facts, with what the property requires.  No ru
                result tables replayed in program order, whole-matrix tests made on the path; every such row must get its own NaN-aware
                extremes and their abscissae, so a mask that is true for a row with a valid sample (`~isfinite(R).all(axis=1)`) is a violation
   c16_uf.py    R4 effects of _pre_calcs / apply_uf / frf_apply_uf and cache discipline, R5 documented factors, R6 exits and index spaces
+  c16_labels.py R7 the row-compatibility step of form_extreme (the function that calls merge_lists, with its helpers) run by a small concrete
+               interpreter in every world of two label lists over three labels: rows are placed by label, a shortcut that returns a category
+               unexpanded needs the labels identical in order (equal lengths are not enough), the incoming event is not modified
 
 Fourth pass.  Effects through views are stores on what the view was taken from (`.fill`, `out=` positional or keyword on any numpy call,
 np.copyto / np.putmask incl. `where=`, `v = x[a:b]; v *= f`); an effect that is not followed makes the content of its target unknown: every
@@ -26,6 +29,10 @@ failed comparison on a value that contains a construct without a model is undeci
 in its own role, results stored under the tuple they were computed with).  The interpreter also follows generator functions with literal
 yields, namedtuple / NamedTuple / dataclass records, `try: d[k] except KeyError` as the test `k in d`, `x in (c1, c2, ..)` as the chain of
 equality tests, zip of a literal table with an opaque sequence, set literals.
+
+Fifth pass.  R1: a path of extrema that never asks `curext.ext_x is None` stands for both worlds of that test, so "no abscissa store at the
+replaced rows" with a contributor that has no abscissae is a violation there too (an early `return`, a guarded call); it is undecided when curext
+escapes into a call that was not followed.  New R7 (c16_labels.py).
 """
 from __future__ import annotations
 
@@ -54,7 +61,9 @@ EXPLANATION = ("Static, on values: every path of cla.extrema (both arms, first a
                "replaying all stores in program order, diagonal and full matrices, with rf modes), d = d_static + d_dynamic on "
                "every exit, DR_Event.apply_uf hands its arguments to apply_uf in their own roles and keeps each result under its factor "
                "tuple, and full / non-rb / elastic / rf index spaces are used consistently end to end (cache entries typed from what "
-               "_pre_calcs stores).")
+               "_pre_calcs stores); form_extreme makes the envelope and the incoming event row-compatible by label (finite world: all pairs of "
+               "ordered label subsets over three labels, cells are opaque tokens): same labels in the same order on both, every row under its own "
+               "label, NaN rows in .ext for labels an event lacks, case labels follow, the event itself untouched.")
 MANIFEST = {
     "text": "Partial claim decided statically on values and effects: (R1) role discipline and role information-flow in cla.extrema on every path, "
             "per-case records, first-case values are fresh copies (ext, ext_x, maxcase, mincase alike), _store_maxmin, frf_data_recovery; "
@@ -66,10 +75,14 @@ MANIFEST = {
             "(R5) every part of the solution is scaled exactly as documented and genforce - avterm = K d for every m/b/k dimensionality with and "
             "without rf modes; (R6) every exit returns d = d_static + d_dynamic, DR_Event.apply_uf passes sol, m, b, k, nrb, rfmodes on in their roles and "
             "stores each result under the tuple it was computed with, and _pre_calcs/apply_uf use the full, non-rb, elastic and rf index "
-            "spaces consistently. Not decided: NaN semantics of numpy comparisons, report formatting, form_extreme/merge label handling.",
+            "spaces consistently; (R7) the row-compatibility step of form_extreme places every row of the envelope and of the incoming event under its "
+            "own label in all worlds of two label lists over three labels (identical, permuted, subset, superset, overlapping, disjoint; with and "
+            "without abscissa tables) and leaves the event unmodified. Not decided: NaN semantics of numpy comparisons, report formatting, "
+            "merge() label handling, locate.merge_lists itself (taken by its documented contract).",
     "note": "Trusted: CPython ast; verifier/c16_interp.py (path enumeration, heap/alias model, table of numpy view/copy semantics), "
             "verifier/e2_formula.py (matrix products abstracted to scalar products), the space rules in verifier/c16_uf.py (Spaces), the row "
-            "worlds of verifier/c16_rows.py (infinities not modelled: isfinite is read as ~isnan).",
+            "worlds of verifier/c16_rows.py (infinities not modelled: isfinite is read as ~isnan), the concrete mini-interpreter and the "
+            "merge_lists contract model of verifier/c16_labels.py.",
     "technique": "abstract interpretation on symbolic values with path enumeration and an alias/effect model + exact symbolic factor check + "
                  "index-space type inference",
 }
